@@ -270,9 +270,15 @@ pub fn run(ctx: &Ctx) {
         |(is_frame, bytes)| check_case(ctx, if *is_frame { "frame" } else { "packet" }, bytes),
     );
     ctx.subspace("proptest byte strings of length 0..128 (shrinking)", cases as u64, false);
+    if std::env::var("VCHECK_FUZZ").is_ok() && !ctx.quick() {
+        crate::fuzzdrv::run_campaign(ctx, "dissect", 3000000);
+    }
 }
 
 pub fn replay(ctx: &Ctx, case: &Value) {
+    if crate::fuzzdrv::replay(ctx, case) {
+        return;
+    }
     let proto = case["proto"].as_str().unwrap_or("frame").to_string();
     let bytes = unhex(case["bytes"].as_str().unwrap_or(""));
     let v = check_case(ctx, &proto, &bytes);
